@@ -159,11 +159,58 @@ def sensitivity(only=None, with_baseline=False):
     return core.EXIT_HARNESS if failed else 0
 
 
+# --------------------------------------------------------------------- fidelity
+def fidelity(n=40):
+    """The in-process model of a killed process (I/O freeze + loss of the user-space buffer) against the OS: the same
+    operation is run in a real child interpreter that receives a real SIGKILL at the same seam event / step; the two
+    post-states must be byte-identical."""
+    from dtsim import engine_project, gen_project
+    from dtsim.core import Chooser
+
+    engine_project.setup()
+    t0 = time.monotonic()
+    done = bad = fired = inflight = 0
+    kinds = {}
+    seed = 31_000_000
+    while done < n and seed < 31_000_000 + 40 * n:
+        seed += 1
+        sc = gen_project.gen_scenario(seed, "C20")
+        ops = []
+        for op in sc["ops"]:
+            op = dict(op)
+            op.pop("fault", None)
+            ops.append(op)
+            if op["op"] in ("sync", "sync_properties", "gen"):
+                break
+        if not ops or ops[-1]["op"] not in ("sync", "sync_properties", "gen"):
+            continue
+        ch = Chooser(seed).fork("fidelity")
+        if ch.chance("step", 0.4):
+            ops[-1]["fault"] = {"where": "step", "kind": "KILL", "pick": "near_io", "frac": round(ch.rng.random(), 3), "delta": ch.choice("d", [-1, 1, 2])}
+        else:
+            ops[-1]["fault"] = {"where": "event", "kind": "KILL", "pick": ch.choice("pick", ["write_window", "write", "close_w", "replace", None]), "frac": round(ch.rng.random(), 3), "cut": 0}
+        sc["ops"] = ops
+        r = engine_project.fidelity_case(sc)
+        if r is None or not r["sim_fired"]:
+            continue
+        done += 1
+        fired += 1
+        inflight += 1 if r["in_flight"] else 0
+        kinds[str(r["event_kind"])] = kinds.get(str(r["event_kind"]), 0) + 1
+        if not r["equal"] or r["child_rc"] != -9:
+            bad += 1
+            print("  MISMATCH seed %d fault %s: child rc=%s sim=%s real=%s %s" % (seed, r["fault"], r["child_rc"], r["sim"], r["real"], r["child_err"]))
+    print("fidelity self-test: %d killed operations compared (%d with a write in flight; by seam %s), %d mismatch(es), %.1fs" % (done, inflight, kinds, bad, time.monotonic() - t0))
+    return (core.EXIT_HARNESS if bad else 0), {"compared": done, "with_write_in_flight": inflight, "by_seam": kinds, "mismatches": bad}
+
+
 def main(argv):
     what = argv[0] if argv else "all"
     rc = 0
     if what in ("determinism", "all"):
         rc |= determinism(int(argv[1]) if len(argv) > 1 and what == "determinism" else 200)
+    if what in ("fidelity", "all"):
+        rc |= fidelity(int(argv[1]) if len(argv) > 1 and what == "fidelity" else 40)[0]
     if what in ("sensitivity", "all"):
         rest = [a for a in argv[1:] if not a.startswith("--")]
         rc |= sensitivity(rest[0] if rest and what == "sensitivity" else None, with_baseline="--baseline" in argv)
